@@ -8,6 +8,7 @@
 //! Decides C05, C08, C09, C10, C11, C12.
 
 mod client;
+mod glue;
 mod model;
 mod rec;
 mod server;
